@@ -102,7 +102,7 @@ package utils
 // decoder must have seen that end before it reports a complete stream
 //@   at-return {C02,C12} [nil-only-after-the-stream-reported-its-end] when ret0 == nil :: ensures called("bufio.Reader.ReadByte") && result("bufio.Reader.ReadByte", 1) == io.EOF
 //@ func (*UnsignedChunkReader) Read
-//@   at-call io.ReadFull {C12} [payload-is-read-through-the-hashing-tee] requires called("io.TeeReader") && $0 == result("io.TeeReader", 0) && arg("io.TeeReader", 0) == iface(ucr.reader) && arg("io.TeeReader", 1) == ucr.hasher
+//@   at-call io.CopyN {C12} [payload-is-read-through-the-hashing-tee] requires called("io.TeeReader") && $1 == result("io.TeeReader", 0) && arg("io.TeeReader", 0) == iface(ucr.reader) && arg("io.TeeReader", 1) == ucr.hasher && $2 == chunkSize
 //@   at-return {C12} [end-of-stream-only-after-the-trailer-was-validated] when ret1 == io.EOF :: ensures called("utils.UnsignedChunkReader.readTrailer") && result("utils.UnsignedChunkReader.readTrailer", 0) == nil
 //
 // Signed reader: Read reports io.EOF only when parseAndRemoveChunkInfo did; parseAndRemoveChunkInfo reports it (other
